@@ -75,12 +75,11 @@ theorem C17_pseudo_clients_never_expire (st : St) (now : Int) (id : Id) (h : id.
 /-- regenerated: the comparison in getSessionLocked, and the two skip conditions, the timeout and
 the proposed entry of ExpireSessions -/
 theorem C17_wiring :
-    Gen.Exprs.fact "getsession.conds" = "ok ;; i.lastProcessed.Id > id.Id" ∧
-    Gen.Exprs.fact "expire.conds" = "id.Reply != 0 ;; time.Since(s.LastActivity) <= timeout" ∧
-    Gen.Exprs.fact "expire.timeout" = "i.sessionExpiration()" ∧
-    Gen.Exprs.fact "expire.timeout.helper" = "time.Duration(i.Config.SessionExpiration)" ∧
+    Gen.Exprs.fact "getsession.conds" = "local:bool ;; param1.Id < recv.lastProcessed.Id" ∧
+    Gen.Exprs.fact "expire.conds" = "0 != rangekey.Reply ;; time.Since(rangeval.LastActivity) <= recv.sessionExpiration()" ∧
+    Gen.Exprs.fact "expire.timeout.helper" = "return time.Duration(recv.Config.SessionExpiration)" ∧
     Gen.Exprs.fact "expire.msg.Type" = "robust.DeleteSession" ∧
-    Gen.Exprs.fact "expire.msg.Session" = "id" := by decide
+    Gen.Exprs.fact "expire.msg.Session" = "rangekey" := by decide
 
 /-! ## Part 2 — end of a session -/
 
@@ -248,5 +247,166 @@ example : (runSt (runEntries exSt [mkE 1 10 ⟨2, 0⟩ "expired", mkE 2 11 ⟨1,
       have : ∀ p ∈ exSt.sessions, p.1.id ≤ 9 := by decide
       exact this _ hm⟩
     (run_eq_of_isOk C17_lastProcessed_not_monotone.2.1)).1
+
+/-! ## non-vacuity (audit): every theorem above with hypotheses, instantiated on *reached* states
+
+`Ex.stR` is the result of running the model from the initial state on `Ex.es0`: a Config entry naming an
+operator; alice (2), Bob (5) and carol (11) register; alice and Bob join `#c`; alice becomes IRC operator and
+GLINEs carol (who is thereby killed, her address 10.0.0.3 banned).  `Ex.stD` is `stR` after the DeleteSession
+entry 15 of Bob.  Invariants come from `run_preserves_gp`. -/
+namespace Ex
+def mk (type id : Nat) (session : Id) (data : String) (addr : String := "") : Entry :=
+  { type := type, id := id, session := session, data := data, unixNano := 0, cmid := id, rev := 0,
+    remoteAddr := addr, cfg := none }
+def es0 : List Entry := [
+  { mk 6 1 ⟨0, 0⟩ "…toml…" with rev := 1, cfg := some { operators := [("root", "pw")] } },
+  mk 0 2 ⟨0, 0⟩ "authA", mk 2 3 ⟨2, 0⟩ "NICK alice", mk 2 4 ⟨2, 0⟩ "USER al 0 * :Alice",
+  mk 0 5 ⟨0, 0⟩ "authB", mk 2 6 ⟨5, 0⟩ "NICK Bob" "10.0.0.2", mk 2 7 ⟨5, 0⟩ "USER bo 0 * :Bob" "10.0.0.2",
+  mk 2 8 ⟨2, 0⟩ "JOIN #c", mk 2 9 ⟨5, 0⟩ "JOIN #c" "10.0.0.2", mk 2 10 ⟨2, 0⟩ "OPER root pw",
+  mk 0 11 ⟨0, 0⟩ "authC", mk 2 12 ⟨11, 0⟩ "NICK carol" "10.0.0.3", mk 2 13 ⟨11, 0⟩ "USER c 0 * :Carol" "10.0.0.3",
+  mk 2 14 ⟨2, 0⟩ "GLINE carol :spam"]
+def aliceR : Session := { id := ⟨2, 0⟩, auth := "authA", loggedIn := true, nick := "alice", username := "al", realname := "Alice", channels := ["#c"], lastActivity := 14, lastNonPing := 14, operator := true, created := 2, modes := ['o'], svid := "0", lastClientMessageId := 14, ircPrefix := ⟨"alice", "al", "robust/0x2"⟩ }
+def bobR : Session := { id := ⟨5, 0⟩, auth := "authB", loggedIn := true, nick := "Bob", username := "bo", realname := "Bob", channels := ["#c"], lastActivity := 9, lastNonPing := 9, created := 5, svid := "0", lastClientMessageId := 9, ircPrefix := ⟨"Bob", "bo", "robust/0x5"⟩, remoteAddr := "10.0.0.2" }
+/-- the state reached from the initial state by `es0` (`run0`) -/
+def stR : St :=
+  { sessions := [(⟨2, 0⟩, aliceR), (⟨5, 0⟩, bobR)]
+    nicks := [("alice", ⟨2, 0⟩), ("bob", ⟨5, 0⟩)]
+    channels := [("#c", { name := "#c", nicks := [("alice", { chanop := true }), ("bob", {})], modes := ['n', 't'] })]
+    lastProcessed := ⟨2, 0⟩
+    config := { revision := 1, operators := [("root", "pw")], banned := [("10.0.0.3", "spam")] } }
+theorem run0 : runEntries {} es0 = .ok stR := by
+  have h1 : (runEntries {} es0).isOk = true := by decide +kernel
+  have h2 : runSt (runEntries {} es0) = stR := by decide +kernel
+  rw [← h2]; exact run_eq_of_isOk h1
+theorem wf0 : WfHistory {} es0 := wf_of_B (by decide +kernel)
+theorem inc0 : IdsIncreasing 0 es0 := idsIncreasing_of_B (by decide)
+theorem wfInit : SessWf ({} : St) := SessWf.of_core GPInv_init.ginv.inv.toWInvCore
+/-- `stR` is reachable, hence satisfies the full invariant -/
+theorem invR : GPInv stR := run_preserves_gp GPInv_init wf0 run0
+theorem wfR : SessWf stR := invR.sessWf
+theorem aliceR_stored : AMap.get stR.sessions ⟨2, 0⟩ = some aliceR := by decide
+theorem bobR_stored : AMap.get stR.sessions ⟨5, 0⟩ = some bobR := by decide
+
+/-- the DeleteSession entry for Bob (what the expiry sweep proposes) and the state after it -/
+def eDel : Entry := mk 1 15 ⟨5, 0⟩ "expired"
+def stD : St := resSt (applyEntry stR eDel)
+theorem eDel_ok : (applyEntry stR eDel).isOk = true := by decide +kernel
+theorem eDel_run : applyEntry stR eDel = .ok (stD, resOut (applyEntry stR eDel)) := eq_ok_of_isOk eDel_ok
+theorem invD : GPInv stD := applyEntry_preserves_gp stR stD eDel _ invR (entryOk_of_B (by decide)) eDel_run
+example : AMap.keys stD.sessions = [⟨2, 0⟩] ∧ stD.lastProcessed = ⟨15, 0⟩ := by decide +kernel
+
+def errOf (r : Except SessErr Session) : Option SessErr :=
+  match r with
+  | .ok _ => none
+  | .error e => some e
+theorem error_of_errOf {r : Except SessErr Session} {e : SessErr} (h : errOf r = some e) : r = .error e := by
+  cases r with
+  | ok s => cases h
+  | error e' => simp only [errOf, Option.some.injEq] at h; rw [h]
+
+/-! ### part 1 -/
+
+/-- on `stD`, Bob's id 5 is answered "no such session" (hypothesis of `C17_nosuch_sound`) -/
+theorem bob_nosuch : getSession stD ⟨5, 0⟩ = .error .noSuchSession := error_of_errOf (by decide +kernel)
+example : AMap.get stD.sessions ⟨5, 0⟩ = none ∧ (⟨5, 0⟩ : Id).id < stD.lastProcessed.id := C17_nosuch_sound stD ⟨5, 0⟩ bob_nosuch
+/-- `C17_future_notyet` on `stD`: id 16 is above `lastProcessed = 15` and not stored -/
+example : getSession stD ⟨16, 0⟩ = .error .notYetSeen :=
+  C17_future_notyet stD ⟨16, 0⟩ (by decide +kernel) (by decide +kernel)
+/-- … the hypotheses also hold on `stR` for carol's id 11 — a session that *was* stored and has been killed:
+`lastProcessed` is 2 there (alice's client entry came last), so the killed session is reported "not yet seen" -/
+example : getSession stR ⟨11, 0⟩ = .error .notYetSeen := C17_future_notyet stR ⟨11, 0⟩ (by decide) (by decide)
+/-- `C17_live_found` -/
+example : getSession stR ⟨5, 0⟩ = .ok bobR := C17_live_found stR ⟨5, 0⟩ bobR bobR_stored
+/-- `C17_cannot_reappear` on `stD` for Bob's id and a CreateSession entry with the next raft index -/
+example : (⟨(mk 0 16 ⟨0, 0⟩ "authD").id, 0⟩ : Id) ≠ ⟨5, 0⟩ :=
+  C17_cannot_reappear stD ⟨5, 0⟩ bob_nosuch (mk 0 16 ⟨0, 0⟩ "authD") (by decide +kernel) rfl
+/-- `C17_expire_exact` on `stR` (expiration 600 s): at `now = 600 s + 12 ns` Bob (last activity 9) is due, alice
+(last activity 14) is not -/
+example : expireSessions stR 600000000012 = [⟨5, 0⟩] := by decide +kernel
+example : (⟨5, 0⟩ : Id) ∈ expireSessions stR 600000000012 :=
+  (C17_expire_exact stR 600000000012 ⟨5, 0⟩).2 ⟨bobR, by decide, rfl, by decide⟩
+/-- `C17_pseudo_clients_never_expire`: `stR` plus a services pseudo-client `⟨7, 77⟩` whose last activity is the
+zero time (not a reached state: pseudo-client ids are `fnv64` hashes, which do not reduce in the kernel) -/
+def stP : St := { stR with sessions := stR.sessions ++ [(⟨7, 77⟩, { id := ⟨7, 77⟩, nick := "ChanServ" })] }
+example : (⟨7, 77⟩ : Id) ∉ expireSessions stP 1000000000000000 :=
+  C17_pseudo_clients_never_expire stP 1000000000000000 ⟨7, 77⟩ (by decide)
+example : expireSessions stP 1000000000000000 = [⟨2, 0⟩, ⟨5, 0⟩] := by decide +kernel
+
+/-! ### part 2 -/
+
+/-- `C17_delete_entry_ends_session` on the reached state -/
+example : AMap.get stD.sessions ⟨5, 0⟩ = none ∧ AMap.get stD.nicks (nickToLower "Bob") = none ∧
+    ∀ lc ch, AMap.get stD.channels lc = some ch → nickToLower "Bob" ∉ AMap.keys ch.nicks :=
+  C17_delete_entry_ends_session (e := eDel) (s := bobR) invR.ginv (entryOk_of_B (by decide)) rfl bobR_stored rfl eDel_run
+example : AMap.keys stD.nicks = ["alice"] ∧ stD.channels.map (fun c => (c.1, AMap.keys c.2.nicks)) = [("#c", ["alice"])] := by
+  decide +kernel
+
+/-- `C17_quit_entry_ends_session`: Bob types QUIT -/
+def eQuit : Entry := mk 2 15 ⟨5, 0⟩ "QUIT :bye" "10.0.0.2"
+theorem eQuit_ok : (applyEntry stR eQuit).isOk = true := by decide +kernel
+example : AMap.get (resSt (applyEntry stR eQuit)).sessions ⟨5, 0⟩ = none ∧
+    AMap.get (resSt (applyEntry stR eQuit)).nicks (nickToLower "Bob") = none ∧
+    ∀ lc ch, AMap.get (resSt (applyEntry stR eQuit)).channels lc = some ch → nickToLower "Bob" ∉ AMap.keys ch.nicks :=
+  C17_quit_entry_ends_session (e := eQuit) (s := bobR) (m := ⟨none, "QUIT", ["bye"]⟩) invR.ginv (entryOk_of_B (by decide)) rfl
+    bobR_stored rfl (by decide +kernel) (by decide +kernel) (eq_ok_of_isOk eQuit_ok)
+
+/-- `C17_kill_entry_ends_session`: alice (IRC operator, registered, address not banned) kills Bob -/
+def eKill : Entry := mk 2 15 ⟨2, 0⟩ "KILL bob :bye"
+theorem eKill_ok : (applyEntry stR eKill).isOk = true := by decide +kernel
+example : AMap.get (resSt (applyEntry stR eKill)).sessions ⟨5, 0⟩ = none ∧
+    AMap.get (resSt (applyEntry stR eKill)).nicks (nickToLower "bob") = none ∧
+    ∀ lc ch, AMap.get (resSt (applyEntry stR eKill)).channels lc = some ch → nickToLower "bob" ∉ AMap.keys ch.nicks :=
+  C17_kill_entry_ends_session (e := eKill) (s := aliceR) (m := ⟨none, "KILL", ["bob", "bye"]⟩) (p0 := "bob") (tid := ⟨5, 0⟩)
+    invR.ginv (entryOk_of_B (by decide)) rfl aliceR_stored rfl rfl rfl (by decide) (by decide +kernel) (by decide +kernel)
+    (by decide) rfl (by decide) (eq_ok_of_isOk eKill_ok)
+example : AMap.keys (resSt (applyEntry stR eKill)).sessions = [⟨2, 0⟩] := by decide +kernel
+
+/-- `C17_banned_entry_ends_session`: a line of Bob arrives from the address 10.0.0.3, which alice's GLINE in
+`es0` has banned -/
+def eBan : Entry := mk 2 15 ⟨5, 0⟩ "PRIVMSG #c :hi" "10.0.0.3"
+theorem eBan_ok : (applyEntry stR eBan).isOk = true := by decide +kernel
+example : AMap.get (resSt (applyEntry stR eBan)).sessions ⟨5, 0⟩ = none ∧
+    AMap.get (resSt (applyEntry stR eBan)).nicks (nickToLower "Bob") = none ∧
+    ∀ lc ch, AMap.get (resSt (applyEntry stR eBan)).channels lc = some ch → nickToLower "Bob" ∉ AMap.keys ch.nicks :=
+  C17_banned_entry_ends_session (e := eBan) (s := bobR) (m := ⟨none, "PRIVMSG", ["#c", "hi"]⟩) (reason := "spam") invR.ginv
+    (entryOk_of_B (by decide)) rfl bobR_stored (by decide +kernel) (by decide) (by decide) (by decide) (eq_ok_of_isOk eBan_ok)
+example : AMap.keys (resSt (applyEntry stR eBan)).sessions = [⟨2, 0⟩] ∧
+    (resSt (applyEntry stR eBan)).channels.map (fun c => (c.1, AMap.keys c.2.nicks)) = [("#c", ["alice"])] := by decide +kernel
+
+/-- `C17_gone_not_addressed` on `stD` (invariant by preservation) for Bob's id -/
+example : ∀ x, AMap.get stD.nicks x ≠ some ⟨5, 0⟩ := C17_gone_not_addressed invD.ginv (by decide +kernel)
+
+/-! ### part 2b -/
+
+/-- `C17_lastProcessed_after` for a DeleteSession entry, a client entry (of session 2) and a CreateSession entry -/
+example : stD.lastProcessed = ⟨15, 0⟩ := by
+  have h := C17_lastProcessed_after eDel_run
+  rw [if_pos (by decide)] at h; exact h
+example : (resSt (applyEntry stR eKill)).lastProcessed = ⟨2, 0⟩ := by
+  have h := C17_lastProcessed_after (eq_ok_of_isOk eKill_ok)
+  rw [if_neg (by decide), if_pos (by decide)] at h; exact h
+def eNew : Entry := mk 0 15 ⟨0, 0⟩ "authD"
+theorem eNew_ok : (applyEntry stR eNew).isOk = true := by decide +kernel
+example : (resSt (applyEntry stR eNew)).lastProcessed = stR.lastProcessed := by
+  have h := C17_lastProcessed_after (eq_ok_of_isOk eNew_ok)
+  rw [if_neg (by decide), if_neg (by decide)] at h; exact h
+
+/-- `C17_lastProcessed_bounded_partial` along the whole history `es0` from the initial state (`n = 0`) -/
+example : stR.lastProcessed.id ≤ 14 ∧ ∀ id s, AMap.get stR.sessions id = some s → id.id ≤ 14 :=
+  C17_lastProcessed_bounded_partial (n := 0) wfInit wf0 inc0 ⟨by decide, fun _ _ h => by cases h⟩ run0
+/-- the bound `LPBound stR 14` just obtained, as used by the next two examples -/
+theorem boundR : stR.lastProcessed.id ≤ 14 ∧ ∀ id s, AMap.get stR.sessions id = some s → id.id ≤ 14 :=
+  C17_lastProcessed_bounded_partial (n := 0) wfInit wf0 inc0 ⟨by decide, fun _ _ h => by cases h⟩ run0
+/-- `C17_lastProcessed_bounded_step` for entry 15 on the reached state -/
+example : stD.lastProcessed.id ≤ 15 ∧ ∀ id s, AMap.get stD.sessions id = some s → id.id ≤ 15 :=
+  C17_lastProcessed_bounded_step (e := eDel) (n := 14) wfR (entryOk_of_B (by decide)) boundR (by decide) eDel_run
+
+/-- `C17_nosuch_is_final`: the history `[eDel]` from the reached state (`n = 14`): afterwards Bob's id is answered
+"no such session", and no later CreateSession entry (id 16 > 15) can create it again -/
+example : (⟨(mk 0 16 ⟨0, 0⟩ "authD").id, 0⟩ : Id) ≠ ⟨5, 0⟩ :=
+  C17_nosuch_is_final (st := stR) (st' := stD) (es := [eDel]) (n := 14) wfR (wf_of_B (by decide +kernel))
+    (idsIncreasing_of_B (by decide)) boundR (by unfold runEntries; rw [eDel_run]; rfl) ⟨5, 0⟩ bob_nosuch
+    (mk 0 16 ⟨0, 0⟩ "authD") (by decide) rfl
+end Ex
 
 end Robust.Props.C17
